@@ -3,6 +3,7 @@
 # 1. confirms the seed in a scratch worktree (demo passes clean, fails patched, suite passes patched)
 # 2. applies the patch to /repo, runs the checks of the given properties (default: meta.property), reverts
 set -u
+DEMO_FLAGS=${DEMO_FLAGS:-}
 export GOFLAGS=-mod=mod GOPROXY=off GOSUMDB=off GOTOOLCHAIN=local
 SD=$(realpath "$1"); shift
 PROP=$(python3 -c "import json;print(json.load(open('$SD/meta.json'))['property'])")
@@ -16,12 +17,12 @@ PKG=./$(dirname "$DEMO")
 cd "$WT"
 RUNRE=$(grep -o '^func Test[A-Za-z0-9_]*' "$SD/demo_test.go" | sed 's/func //' | paste -sd'|')
 echo "== $ID demo on clean tree ($RUNRE)"
-go test -vet=off -count=1 -run "^($RUNRE)\$" $PKG > /tmp/sv/$ID.clean.log 2>&1; C=$?
+go test -vet=off $DEMO_FLAGS -count=1 -run "^($RUNRE)\$" $PKG > /tmp/sv/$ID.clean.log 2>&1; C=$?
 echo "   exit=$C"
 git apply "$SD/patch.diff" || { echo "PATCH DOES NOT APPLY"; cd /; git -C /repo worktree remove --force "$WT"; exit 3; }
 go build ./... > /tmp/sv/$ID.build.log 2>&1; B=$?
 echo "== build with patch exit=$B"
-go test -vet=off -count=1 -run "^($RUNRE)\$" $PKG > /tmp/sv/$ID.patched.log 2>&1; P=$?
+go test -vet=off $DEMO_FLAGS -count=1 -run "^($RUNRE)\$" $PKG > /tmp/sv/$ID.patched.log 2>&1; P=$?
 echo "== demo with patch exit=$P (expected non-zero)"
 rm -f "$WT/$DEMO"
 go test -vet=off -count=1 ./... > /tmp/sv/$ID.suite.log 2>&1; S=$?
